@@ -1,8 +1,9 @@
 (* C15 — complex (rectangular) interval operations contain every exact complex result: + - neg pos * square on finite
-   rectangles, every precision, every member point.  Division, powers and the elementary functions on rectangles are
-   decided by correspondence / certificates, not by theorems here. *)
+   rectangles, every precision, every member point; division (when the enclosure of |w|^2 excludes zero) and positive integer
+   powers (loop invariant by induction on the bits of the exponent).  The elementary functions on rectangles are decided by
+   certificates, not by theorems here. *)
 From Coq Require Import ZArith Reals.
-From MP Require Import Algo.Base Algo.Libmpf Algo.Libmpi Spec.Mpf Spec.Round Proofs.IvCmp Proofs.IvCplx.
+From MP Require Import Algo.Base Algo.Libmpf Algo.Libmpi Spec.Mpf Spec.Round Proofs.IvCmp Proofs.IvCplx Proofs.CplxPow Proofs.IvCplxPow.
 Open Scope Z_scope.
 
 Theorem C15_add_contains : forall z w prec a b c d, valid_civ z -> valid_civ w -> 0 <= prec -> in_civ z a b -> in_civ w c d ->
@@ -24,5 +25,16 @@ Print Assumptions C15_mul_contains.
 Theorem C15_square_contains : forall z prec a b, valid_civ z -> 0 <= prec -> in_civ z a b ->
   in_civ (mpci_square z prec) (a * a - b * b) (2 * (a * b)) /\ valid_civ (mpci_square z prec).
 Proof. exact mpci_square_contains. Qed.
+Theorem C15_div_contains : forall z w prec a b c d, valid_civ z -> valid_civ w -> 0 < prec -> in_civ z a b -> in_civ w c d ->
+  let m := mpi_add (mpi_square (fst w) 0) (mpi_square (snd w) 0) (prec + 20) in
+  (0 < rv (fst m))%R ->
+  exists q, mpci_div z w prec = Ok q /\ valid_civ q /\
+    in_civ q ((a * c + b * d) / (c * c + d * d)) ((b * c - a * d) / (c * c + d * d)).
+Proof. exact mpci_div_contains. Qed.
+Theorem C15_pow_contains : forall z n prec a b, valid_civ z -> 0 < prec -> in_civ z a b -> 3 <= Zpos n ->
+  let r := mpci_pow_int_pos z n prec in
+  valid_civ r /\ in_civ r (fst (rpow (a, b) (Pos.to_nat n))) (snd (rpow (a, b) (Pos.to_nat n))).
+Proof. exact mpci_pow_int_pos_contains. Qed.
+Print Assumptions C15_pow_contains.
 Example C15_witness : mpci_mul ((fone, fone), (fone, fone)) ((fone, fone), (fone, fone)) 53 = ((fzero, fzero), (Mpf 0 1 1 1, Mpf 0 1 1 1)).  (* (1+i)^2 = 2i *)
 Proof. vm_compute. reflexivity. Qed.
